@@ -35,8 +35,10 @@ c44_item(probe(oc), r(O)) :-
     % (p(B,B) against p(X, f(X))); both must behave as the flag says
     c44_try(c44_cyclic, O1),
     c44_try(c44_cyclic_head, O2),
-    (   c44_class(O1, C), c44_class(O2, C) -> O = O1
-    ;   O = differ(O1, O2)
+    c44_try(c44_cyclic_head2, O3),
+    c44_try(c44_cyclic_head3, O4),
+    (   c44_class(O1, C), c44_class(O2, C), c44_class(O3, C), c44_class(O4, C) -> O = O1
+    ;   O = differ(O1, O2, O3, O4)
     ).
 c44_item(probe(unk), r(O)) :-
     catch(( c44_undefined_predicate_zz(1) -> O = yes ; O = no ), B, O = ex(B)).
@@ -45,6 +47,12 @@ c44_cyclic :- X = f(X), nonvar(X).
 
 c44_pp(B, B).
 c44_cyclic_head :- c44_pp(X, f(X)), nonvar(X).
+
+% the structure is in the clause head (get_structure / unify_value in write mode)
+c44_ph(X, f(X)).
+c44_cyclic_head2 :- c44_ph(B, B), nonvar(B).
+c44_pl(X, [a, X]).
+c44_cyclic_head3 :- c44_pl(C, C), nonvar(C).
 
 c44_try(G, O) :- catch(( call(G) -> O = yes ; O = no ), B, O = ex(B)).
 
